@@ -6,7 +6,7 @@ from ..repo import AnalysisError
 from ..report import Ob, RuleSpec
 from ..astutil import (src, guards, flat_guards, calls_in, call_name, kwarg,
                        const_value, iter_own_nodes, norm_key, is_within, ancestors)
-from ..cfg import cfg_of, Prov
+from ..cfg import cfg_of, Prov, resolve_local
 from .. import variants as V
 
 PROPERTY = "C16"
@@ -486,28 +486,65 @@ def r5_modes(repo):
                            for n in iter_own_nodes(lp))
         ok = it_ok and bool(ext) and start_ok and upd_ok and init_ok and no_leave and \
             ("glob", False) in g_
+        if not ok and isinstance(lp.target, ast.Name):
+            # second form: a loop over all prefixes of the path, outermost first -
+            #   for prefix in [namespace[:i] for i in range(1, len(namespace) + 1)]: decls.update(map of prefix)
+            it = resolve_local(f.node, lp.iter, at=lp)
+            lenres = lambda e: src(resolve_local(f.node, e, at=lp)).replace(" ", "")
+            pref_ok = False
+            if isinstance(it, ast.ListComp) and len(it.generators) == 1 and not it.generators[0].ifs and \
+                    isinstance(it.generators[0].target, ast.Name):
+                i_ = it.generators[0].target.id
+                elt = it.elt
+                if isinstance(elt, ast.Call) and isinstance(elt.func, ast.Name) and elt.func.id == "tuple" and len(elt.args) == 1:
+                    elt = elt.args[0]
+                rng = it.generators[0].iter
+                pref_ok = src(elt).replace(" ", "") == "namespace[:%s]" % i_ and isinstance(rng, ast.Call) and \
+                    src(rng.func) == "range" and len(rng.args) == 2 and src(rng.args[0]) == "1" and \
+                    isinstance(rng.args[1], ast.BinOp) and isinstance(rng.args[1].op, ast.Add) and \
+                    src(rng.args[1].right) == "1" and lenres(rng.args[1].left) == "len(namespace)"
+            v2 = lp.target.id
+            upd2 = [c for c in calls_in(lp) if call_name(c) == "update" and src(c.func.value) == "decls"]
+            upd2_ok = len(upd2) == 1 and any(
+                src(s_).startswith("self._context.get(%s" % v2) for s_ in prov.sources(upd2[0].args[0]) if isinstance(s_, ast.AST))
+            init2 = [a for a in assigns if isinstance(a.value, ast.Call) and src(a.value.func).endswith("OrderedDict") and
+                     not a.value.args and a.lineno < lp.lineno]
+            if pref_ok:
+                ok = upd2_ok and len(init2) == 1 and no_leave and ("glob", False) in g_
+                msg = ("union mode (prefix list): every prefix of the path, outermost first (%s), merged with decls.update (%s) "
+                       "into a fresh OrderedDict (%s), no break/continue (%s)" % (pref_ok, upd2_ok, len(init2) == 1, no_leave))
+    elif len(fors) != 1:
+        raise AnalysisError("shape unknown in _get_declarations: %d loops where the union over the path's prefixes is "
+                            "expected" % len(fors), rule="C16-R5", anchor=f.qualname)
         msg = ("union mode: iterate namespace[1:] (%s), extend prefix by one component (%s) starting at "
                "(namespace[0],) (%s), merge the prefix's map with decls.update after extending (%s), "
                "start from a fresh OrderedDict of the root map (%s), no break/continue (%s)"
                % (it_ok, bool(ext), start_ok, upd_ok, init_ok, no_leave))
     obs.append(Ob("C16-R5", "_get_declarations:union-mode", _where(repo, f), ok, msg))
     # none filter
-    comps = [a for a in assigns if isinstance(a.value, ast.DictComp)]
+    rets = [n for n in iter_own_nodes(f.node) if isinstance(n, ast.Return)]
+    comps = [(a, a.value) for a in assigns if isinstance(a.value, ast.DictComp)] + \
+        [(r_, r_.value) for r_ in rets if isinstance(r_.value, ast.DictComp)]
     ok = False
     msg = "artificial-entry filter not found"
+    if not comps:
+        raise AnalysisError("shape unknown in _get_declarations: no dict comprehension that drops the artificial entries",
+                            rule="C16-R5", anchor=f.qualname)
     if len(comps) == 1:
-        c = comps[0]
+        c, dc = comps[0]
         g_ = gl(c)
-        gen = c.value.generators[0]
+        gen = dc.generators[0]
         flt = [src(i) for i in gen.ifs]
         ok = ("none", False) in g_ and len(g_) == 1 and src(gen.iter) == "decls.items()" and \
-            flt == ["%s is not None" % src(c.value.value)] and \
-            src(c.value.key) == src(gen.target.elts[0]) and src(c.value.value) == src(gen.target.elts[1])
+            flt == ["%s is not None" % src(dc.value)] and \
+            src(dc.key) == src(gen.target.elts[0]) and src(dc.value) == src(gen.target.elts[1])
         msg = "filter must drop exactly the None-valued entries when `none` is false: guards %s filter %s" % (g_, flt)
     obs.append(Ob("C16-R5", "_get_declarations:none-filter", _where(repo, f), ok, msg))
-    rets = [n for n in iter_own_nodes(f.node) if isinstance(n, ast.Return)]
-    obs.append(Ob("C16-R5", "_get_declarations:single-return-of-decls", _where(repo, f),
-                  len(rets) == 1 and src(rets[0].value) == "decls" and rets[0] is f.node.body[-1],
+    plain = [r_ for r_ in rets if src(r_.value) == "decls"]
+    filt_r = [r_ for r_ in rets if isinstance(r_.value, ast.DictComp)]
+    one = len(rets) == 1 and len(plain) == 1 and rets[0] is f.node.body[-1]
+    two = len(rets) == 2 and len(plain) == 1 and len(filt_r) == 1 and [(s_, p_) for s_, p_ in gl(plain[0])] == [("none", True)]
+    obs.append(Ob("C16-R5", "_get_declarations:single-return-of-decls", _where(repo, f), one or two,
                   "returns: %s" % [src(r) for r in rets]))
 
     # glob walk
@@ -515,6 +552,9 @@ def r5_modes(repo):
     whiles = [n for n in iter_own_nodes(f.node) if isinstance(n, ast.While)]
     ok = False
     msg = "worklist loop not found"
+    if not whiles:
+        raise AnalysisError("shape unknown in _get_declarations_glob: no worklist loop (the walk is delegated)",
+                            rule="C16-R5", anchor=f.qualname)
     if len(whiles) == 1:
         w = whiles[0]
         wl = src(w.test)
@@ -558,6 +598,36 @@ def r5_modes(repo):
                   "find_namespaces must return namespace+(name,) for every function and class of exactly "
                   "`namespace` (only_current=True): iterates %s shape_ok=%s returns_both=%s"
                   % (sorted(got), shape_ok, ret_ok)))
+    return obs
+
+
+def r7_fresh_accumulators(repo):
+    """a query never writes into the table it reads: whatever a query method merges into (`X.update(..)`, `X[k] = ..`) is a
+    map created by that method (OrderedDict(..), dict(..), a literal, a comprehension) on every path to the merge - not a
+    map handed out by `self._context` (merging into that adds the nested scopes' entries to the root scope for good)"""
+    obs = []
+    cls = repo.cls(CTX)
+    for name in ("_get_declarations_glob", "_get_declarations", "get_namespaces_decls", "find_namespaces"):
+        f = cls.methods.get(name)
+        if f is None:
+            continue
+        g = cfg_of(f.node)
+        for c in calls_in(f.node):
+            if not (call_name(c) in ("update", "setdefault", "add", "append", "extend") and isinstance(c.func, ast.Attribute) and
+                    isinstance(c.func.value, ast.Name)):
+                continue
+            recv = c.func.value.id
+            defs = g.defs_reaching(recv, c)
+            live = []
+            for _d, v, k in defs:
+                fresh = isinstance(v, (ast.Dict, ast.DictComp, ast.List, ast.ListComp, ast.Set, ast.SetComp)) or \
+                    (isinstance(v, ast.Call) and isinstance(v.func, (ast.Name, ast.Attribute)) and
+                     src(v.func).split(".")[-1] in ("OrderedDict", "dict", "list", "set", "defaultdict", "copy", "deepcopy"))
+                if k != "assign" or not fresh:
+                    live.append(src(v)[:60] if isinstance(v, ast.AST) else k)
+            obs.append(Ob("C16-R7", "%s:%s.%s:merges-into-a-map-of-its-own" % (name, recv, call_name(c)), _where(repo, f, c),
+                          bool(defs) and not live,
+                          "`%s` may write into %s: a query must accumulate in a map it created itself" % (src(c)[:60], live)))
     return obs
 
 
@@ -617,6 +687,8 @@ def rules():
         RuleSpec("C16-R3", "get_decl walks from the innermost namespace outwards", 5, r3_innermost),
         RuleSpec("C16-R4", "'decls' kind keeps insertion order", 1, r4_ordered),
         RuleSpec("C16-R5", "three query modes of _get_declarations", 7, r5_modes),
+        RuleSpec("C16-R7", "queries accumulate in maps of their own (never in a map handed out by the table)", 3,
+                 r7_fresh_accumulators),
         RuleSpec("C16-R6", "declarations keep identity semantics (reverse-map keys, truth-tested hits)", 7, r6_identity),
     ]
 
